@@ -153,15 +153,20 @@ func (n *node) reallyClose() {
 	}
 }
 
-// quiesce waits until the casper background loop has taken every queued epoch notification.
+// quiesce waits until the casper background loop has FINISHED every queued epoch
+// notification. An empty queue is not enough: the loop takes a notification and only then
+// reads the store (validators of the epoch) and replays parked votes. A sequential history
+// that goes on while the loop is still reading is not the history the model is given: the
+// loop's late cache fill of a checkpoint can cross the invalidation made by the next vote
+// and leave a stale (still unjustified) source checkpoint in the store cache, after which a
+// supermajority link from it justifies nothing (seen once in about a hundred runs of the
+// tree stream on a loaded machine; DESIGN.md A.7). The hook queues a marker notification
+// behind the real ones and waits until the loop has taken it.
 func (n *node) quiesce() {
 	if n.chain == nil {
 		return
 	}
-	c := n.chain.VerifNodeCasper()
-	for i := 0; i < 2000 && c.VerifNodePending() > 0; i++ {
-		time.Sleep(time.Millisecond)
-	}
+	n.chain.VerifNodeCasper().VerifNodeDrain(5 * time.Second)
 }
 
 type node struct {
@@ -239,6 +244,10 @@ func (n *node) reopen() (err error) {
 	n.pool = protocol.NewTxPool(n.store, n.disp)
 	n.chain = nil
 	n.chain, err = protocol.NewChain(n.store, n.pool, n.disp)
+	if err == nil {
+		// NewChain applies the best block again: an epoch-start block queues a notification
+		n.quiesce()
+	}
 	return err
 }
 
